@@ -169,6 +169,8 @@ class Index(object):
             ref = load_ref()
             self.unextracted = undo_extracted_locals(trees, ref) if ref else []
             self.inlined_helpers = normalize_package(trees, ref)
+            from .normalize import tidy_inlined_temps
+            self.tidied = tidy_inlined_temps(trees) if self.inlined_helpers else 0
             self.desugared = desugar(trees)
         for m in self.modules.values():
             self._scan_module(m)
